@@ -570,6 +570,13 @@ func (c *client) receive(r io.Reader) (err error) {
 		return
 	}
 
+	if v, ok := rpc.(interface{ validateResponse(proto.Message) error }); ok {
+		if err = v.validateResponse(response); err != nil {
+			err = RetryableError{fmt.Errorf("failed to decode the response: %s", err)}
+			return
+		}
+	}
+
 	var cellsLen uint32
 	if header.CellBlockMeta != nil {
 		cellsLen = header.CellBlockMeta.GetLength()
